@@ -154,7 +154,10 @@ func (r *headerRange[H]) rangeAmount(end uint64) uint64 {
 	}
 
 	amnt := uint64(len(r.headers))
-	if r.start+amnt >= end {
+	// the range holds heights [start, start+amnt): cut it only if it goes beyond 'end'.
+	// NOTE: with >= a range ending right below 'end' (start+amnt == end) got amnt+1,
+	// i.e. more headers than it has.
+	if r.start+amnt > end {
 		amnt = end - r.start + 1 // + 1 to include 'end' as well
 	}
 
